@@ -26,7 +26,9 @@ RULE = ('images of every CAMx binary format (uamiv AVERAGE/EMISSIONS/INSTANT/'
         'by the library (direction B) and, when read correctly, written '
         'back by the library writer and decoded by the independent decoder '
         '(direction A, also from hand-built sources; boundary-definition '
-        'records judged against the CAMx convention). non-trivial = the image has >= 2 cells per field; '
+        'records judged against the CAMx convention); plus the ten sample '
+        'files bundled with the library, judged against the independent '
+        'decoder in both directions. non-trivial = the image has >= 2 cells per field; '
         'distinct = digest of the image spec.')
 ASSUMPTIONS = [
     'the reference codecs were written from the CAMx User\'s Guide record '
